@@ -70,7 +70,7 @@ def delaunay_mesh(rng: random.Random, n: int, kind: str = "random", smooth: int 
 
 def make_device(rng: random.Random, *, holes=0, terminals=2, max_edge_length=None, smooth=0,
                 length_units="um", xi=0.5, london_lambda=2.0, d=0.1, gamma=10.0, u=5.79,
-                probe_points=True, shape="box", scale=1.0, conductivity=None, hole_kind="convex"):
+                probe_points=True, shape="box", scale=1.0, conductivity=None, hole_kind="convex", pad=False):
     """A real tdgl.Device with a Triangle mesh (retries on malformed Voronoi cells)."""
     import tdgl
     from tdgl.geometry import box, circle, ellipse
@@ -107,8 +107,9 @@ def make_device(rng: random.Random, *, holes=0, terminals=2, max_edge_length=Non
             hs.append(tdgl.Polygon("hole2", points=box(0.9 * scale, 0.7 * scale, center=(1.3 * scale, -0.4 * scale), points=21)))
         ts = []
         tw = H * 0.6
-        specs = [("source", (-W / 2, 0), (0.2 * scale, tw)), ("drain", (W / 2, 0), (0.2 * scale, tw)),
-                 ("top", (0, H / 2), (W * 0.3, 0.2 * scale)), ("bottom", (0, -H / 2), (W * 0.3, 0.2 * scale))]
+        dp = (1.6 if pad else 0.2) * scale          # pad: contact pads reaching well into the film (several mesh edges deep)
+        specs = [("source", (-W / 2, 0), (dp, tw)), ("drain", (W / 2, 0), (dp, tw)),
+                 ("top", (0, H / 2), (W * 0.3, dp * (0.5 if pad else 1.0))), ("bottom", (0, -H / 2), (W * 0.3, dp * (0.5 if pad else 1.0)))]
         for name, c, (w, h) in specs[:terminals]:
             ts.append(tdgl.Polygon(name, points=box(w, h, center=c)))
         pp = [(-W / 4, -H / 4), (W / 4, H / 4)] if probe_points else None
